@@ -3,7 +3,7 @@
 cd /verif
 rc=0
 for p in $(python3 -c "import json;print(' '.join(c['property_id'] for c in json.load(open('/verif/MANIFEST.json'))['checks']))"); do
-  ./bin/govc check -property $p -tier quick | tail -1 || rc=1
+  out=$(./bin/govc check -property $p -tier quick); r=$?; echo "$out" | tail -1; [ $r -ne 0 ] && { echo "$out" | grep VIOL | cut -c1-300; rc=1; }
 done
 ./validate.sh | grep -v " ok$"
 exit $rc
